@@ -119,6 +119,9 @@ pub struct PayModel {
     /// letter PruneBeat (time passes, heartbeat prunes); approval may be asked for again afterwards
     #[serde(default)]
     pub prune: bool,
+    /// over the transactional cloud store (prepare / commit after every request)
+    #[serde(default)]
+    pub cloud: bool,
 }
 
 pub fn pc_content(pc: PC) -> Content {
@@ -280,11 +283,12 @@ impl Model for PayModel {
     }
 
     fn name(&self) -> String {
-        format!("payflow(ops<={},contents={:?},k={}{}{}{}{})", self.max_ops, self.contents, self.k, if self.strict { ",enforce_balance" } else { "" }, if self.monitors { ",monitors" } else { "" }, if self.holder_letters { "" } else { ",cp-side-only" }, if self.locked_prefix { ",first-part-locked-in" } else { "" }) + if self.declined { ",approval-declined-by-velocity" } else { "" } + if self.incoming_prefix { ",incoming-locked-in" } else { "" } + if self.invoice { ",bolt11-invoice" } else { "" } + if self.phase1 { ",raw-tx-entry-points" } else { "" } + if self.prune { ",prune-beat" } else { "" }
+        format!("payflow(ops<={},contents={:?},k={}{}{}{}{})", self.max_ops, self.contents, self.k, if self.strict { ",enforce_balance" } else { "" }, if self.monitors { ",monitors" } else { "" }, if self.holder_letters { "" } else { ",cp-side-only" }, if self.locked_prefix { ",first-part-locked-in" } else { "" }) + if self.declined { ",approval-declined-by-velocity" } else { "" } + if self.incoming_prefix { ",incoming-locked-in" } else { "" } + if self.invoice { ",bolt11-invoice" } else { "" } + if self.phase1 { ",raw-tx-entry-points" } else { "" } + if self.prune { ",prune-beat" } else { "" } + if self.cloud { ",cloud-store" } else { "" }
     }
 
     fn init(&self) -> PState {
         let mut cfg = WorldCfg::default();
+        cfg.cloud = self.cloud;
         if self.strict {
             cfg.policy = Some(strict_policy(cfg.network));
         }
@@ -326,6 +330,8 @@ impl Model for PayModel {
             assert!(s.ghost.chans[&1].cur_holder == Some(PC::I1) && s.ghost.chans[&1].cur_cp == Some(PC::I1), "prefix did not lock the incoming HTLC in: {:?}", s.ghost.chans[&1]);
             s.nops = 0;
         }
+        // over the transactional store: what the set-up wrote is committed before the search starts
+        let _ = s.w().end_request();
         s
     }
 
@@ -561,6 +567,9 @@ impl Model for PayModel {
                 }
             }
         }
+        if !matches!(op, Op::Restart) {
+            end_cloud_request(s.w(), kind, &tag, mon, vios);
+        }
         if mon && !matches!(op, Op::Restart) {
             if tag.starts_with("err:") {
                 let after = s.w().snapshot();
@@ -580,28 +589,31 @@ pub struct PayRun {
 pub fn explore(tier: Tier, monitors: bool, wall_s: f64) -> PayRun {
     let models_cfg: Vec<PayModel> = match (tier, monitors) {
         (Tier::Quick, false) => vec![
-            PayModel { max_ops: 4, contents: vec![PC::E, PC::Oh, PC::O1, PC::O2, PC::I1], k: 2, monitors, strict: false, holder_letters: true, locked_prefix: false, declined: false, incoming_prefix: false, invoice: false, phase1: false, prune: false },
-            PayModel { max_ops: 6, contents: vec![PC::Oh, PC::O1], k: 3, monitors, strict: false, holder_letters: false, locked_prefix: false, declined: false, incoming_prefix: false, invoice: false, phase1: false, prune: false },
-            PayModel { max_ops: 3, contents: vec![PC::E, PC::Oh, PC::O1, PC::O1x2], k: 3, monitors, strict: false, holder_letters: true, locked_prefix: true, declined: false, incoming_prefix: false, invoice: false, phase1: false, prune: false },
-            PayModel { max_ops: 3, contents: vec![PC::E, PC::Oh, PC::O1, PC::O2], k: 2, monitors, strict: false, holder_letters: true, locked_prefix: false, declined: true, incoming_prefix: false, invoice: false, phase1: false, prune: false },
-            PayModel { max_ops: 3, contents: vec![PC::E, PC::O1, PC::Ox, PC::I1], k: 3, monitors, strict: false, holder_letters: true, locked_prefix: false, declined: false, incoming_prefix: true, invoice: false, phase1: false, prune: false },
+            PayModel { max_ops: 4, contents: vec![PC::E, PC::Oh, PC::O1, PC::O2, PC::I1], k: 2, monitors, strict: false, holder_letters: true, locked_prefix: false, declined: false, incoming_prefix: false, invoice: false, phase1: false, prune: false, cloud: false },
+            PayModel { max_ops: 6, contents: vec![PC::Oh, PC::O1], k: 3, monitors, strict: false, holder_letters: false, locked_prefix: false, declined: false, incoming_prefix: false, invoice: false, phase1: false, prune: false, cloud: false },
+            PayModel { max_ops: 3, contents: vec![PC::E, PC::Oh, PC::O1, PC::O1x2], k: 3, monitors, strict: false, holder_letters: true, locked_prefix: true, declined: false, incoming_prefix: false, invoice: false, phase1: false, prune: false, cloud: false },
+            PayModel { max_ops: 3, contents: vec![PC::E, PC::Oh, PC::O1, PC::O2], k: 2, monitors, strict: false, holder_letters: true, locked_prefix: false, declined: true, incoming_prefix: false, invoice: false, phase1: false, prune: false, cloud: false },
+            PayModel { max_ops: 3, contents: vec![PC::E, PC::O1, PC::Ox, PC::I1], k: 3, monitors, strict: false, holder_letters: true, locked_prefix: false, declined: false, incoming_prefix: true, invoice: false, phase1: false, prune: false, cloud: false },
             // approval by a BOLT-11 invoice, updates through the raw-transaction entry points
-            PayModel { max_ops: 4, contents: vec![PC::O1, PC::Ox, PC::O2], k: 2, monitors, strict: false, holder_letters: true, locked_prefix: false, declined: false, incoming_prefix: false, invoice: true, phase1: true, prune: false },
-            PayModel { max_ops: 6, contents: vec![PC::Oh, PC::O1], k: 3, monitors, strict: false, holder_letters: false, locked_prefix: false, declined: false, incoming_prefix: false, invoice: true, phase1: true, prune: false },
+            PayModel { max_ops: 4, contents: vec![PC::O1, PC::Ox, PC::O2], k: 2, monitors, strict: false, holder_letters: true, locked_prefix: false, declined: false, incoming_prefix: false, invoice: true, phase1: true, prune: false, cloud: false },
+            PayModel { max_ops: 6, contents: vec![PC::Oh, PC::O1], k: 3, monitors, strict: false, holder_letters: false, locked_prefix: false, declined: false, incoming_prefix: false, invoice: true, phase1: true, prune: false, cloud: false },
             // time passes, heartbeats prune expired approvals, the approval is asked for again
-            PayModel { max_ops: 5, contents: vec![PC::E, PC::O1], k: 3, monitors, strict: false, holder_letters: false, locked_prefix: false, declined: false, incoming_prefix: false, invoice: false, phase1: false, prune: true },
-            PayModel { max_ops: 5, contents: vec![PC::E, PC::O1], k: 3, monitors, strict: false, holder_letters: false, locked_prefix: false, declined: false, incoming_prefix: false, invoice: true, phase1: false, prune: true },
+            PayModel { max_ops: 5, contents: vec![PC::E, PC::O1], k: 3, monitors, strict: false, holder_letters: false, locked_prefix: false, declined: false, incoming_prefix: false, invoice: false, phase1: false, prune: true, cloud: false },
+            PayModel { max_ops: 5, contents: vec![PC::E, PC::O1], k: 3, monitors, strict: false, holder_letters: false, locked_prefix: false, declined: false, incoming_prefix: false, invoice: true, phase1: false, prune: true, cloud: false },
         ],
-        (Tier::Quick, true) => vec![PayModel { max_ops: 3, contents: vec![PC::E, PC::O1, PC::O2, PC::Ox], k: 2, monitors, strict: false, holder_letters: true, locked_prefix: false, declined: false, incoming_prefix: false, invoice: false, phase1: false, prune: false }],
+        (Tier::Quick, true) => vec![
+            PayModel { max_ops: 3, contents: vec![PC::E, PC::O1, PC::O2, PC::Ox], k: 2, monitors, strict: false, holder_letters: true, locked_prefix: false, declined: false, incoming_prefix: false, invoice: false, phase1: false, prune: false, cloud: false },
+            PayModel { max_ops: 3, contents: vec![PC::O1, PC::O2], k: 2, monitors, strict: false, holder_letters: true, locked_prefix: false, declined: false, incoming_prefix: false, invoice: true, phase1: true, prune: true, cloud: true },
+        ],
         (Tier::Thorough, _) => vec![
-            PayModel { max_ops: 6, contents: vec![PC::E, PC::Oh, PC::O1, PC::Ox, PC::O2, PC::I1, PC::I2O2, PC::O1x2], k: 2, monitors, strict: false, holder_letters: true, locked_prefix: false, declined: false, incoming_prefix: false, invoice: false, phase1: false, prune: false },
-            PayModel { max_ops: 5, contents: vec![PC::E, PC::Oh, PC::O1, PC::O2, PC::I1], k: 2, monitors, strict: true, holder_letters: true, locked_prefix: false, declined: false, incoming_prefix: false, invoice: false, phase1: false, prune: false },
-            PayModel { max_ops: 5, contents: vec![PC::E, PC::Oh, PC::O1, PC::Ox, PC::O1x2, PC::I1], k: 3, monitors, strict: false, holder_letters: true, locked_prefix: true, declined: false, incoming_prefix: false, invoice: false, phase1: false, prune: false },
-            PayModel { max_ops: 5, contents: vec![PC::E, PC::Oh, PC::O1, PC::O2, PC::I1], k: 2, monitors, strict: false, holder_letters: true, locked_prefix: false, declined: true, incoming_prefix: false, invoice: false, phase1: false, prune: false },
-            PayModel { max_ops: 5, contents: vec![PC::E, PC::Oh, PC::O1, PC::Ox, PC::O1x2, PC::I1], k: 3, monitors, strict: false, holder_letters: true, locked_prefix: false, declined: false, incoming_prefix: true, invoice: false, phase1: false, prune: false },
-            PayModel { max_ops: 5, contents: vec![PC::E, PC::Oh, PC::O1, PC::Ox, PC::O2, PC::I1], k: 2, monitors, strict: false, holder_letters: true, locked_prefix: false, declined: false, incoming_prefix: false, invoice: true, phase1: true, prune: false },
-            PayModel { max_ops: 6, contents: vec![PC::E, PC::Oh, PC::O1], k: 3, monitors, strict: false, holder_letters: true, locked_prefix: false, declined: false, incoming_prefix: false, invoice: false, phase1: false, prune: true },
-            PayModel { max_ops: 6, contents: vec![PC::E, PC::Oh, PC::O1], k: 3, monitors, strict: false, holder_letters: true, locked_prefix: false, declined: false, incoming_prefix: false, invoice: true, phase1: false, prune: true },
+            PayModel { max_ops: 6, contents: vec![PC::E, PC::Oh, PC::O1, PC::Ox, PC::O2, PC::I1, PC::I2O2, PC::O1x2], k: 2, monitors, strict: false, holder_letters: true, locked_prefix: false, declined: false, incoming_prefix: false, invoice: false, phase1: false, prune: false, cloud: false },
+            PayModel { max_ops: 5, contents: vec![PC::E, PC::Oh, PC::O1, PC::O2, PC::I1], k: 2, monitors, strict: true, holder_letters: true, locked_prefix: false, declined: false, incoming_prefix: false, invoice: false, phase1: false, prune: false, cloud: false },
+            PayModel { max_ops: 5, contents: vec![PC::E, PC::Oh, PC::O1, PC::Ox, PC::O1x2, PC::I1], k: 3, monitors, strict: false, holder_letters: true, locked_prefix: true, declined: false, incoming_prefix: false, invoice: false, phase1: false, prune: false, cloud: false },
+            PayModel { max_ops: 5, contents: vec![PC::E, PC::Oh, PC::O1, PC::O2, PC::I1], k: 2, monitors, strict: false, holder_letters: true, locked_prefix: false, declined: true, incoming_prefix: false, invoice: false, phase1: false, prune: false, cloud: false },
+            PayModel { max_ops: 5, contents: vec![PC::E, PC::Oh, PC::O1, PC::Ox, PC::O1x2, PC::I1], k: 3, monitors, strict: false, holder_letters: true, locked_prefix: false, declined: false, incoming_prefix: true, invoice: false, phase1: false, prune: false, cloud: false },
+            PayModel { max_ops: 5, contents: vec![PC::E, PC::Oh, PC::O1, PC::Ox, PC::O2, PC::I1], k: 2, monitors, strict: false, holder_letters: true, locked_prefix: false, declined: false, incoming_prefix: false, invoice: true, phase1: true, prune: false, cloud: false },
+            PayModel { max_ops: 6, contents: vec![PC::E, PC::Oh, PC::O1], k: 3, monitors, strict: false, holder_letters: true, locked_prefix: false, declined: false, incoming_prefix: false, invoice: false, phase1: false, prune: true, cloud: false },
+            PayModel { max_ops: 6, contents: vec![PC::E, PC::Oh, PC::O1], k: 3, monitors, strict: false, holder_letters: true, locked_prefix: false, declined: false, incoming_prefix: false, invoice: true, phase1: false, prune: true, cloud: false },
         ],
     };
     let mut stats = BfsStats { closed: true, ..Default::default() };
